@@ -875,7 +875,9 @@ func (fc *FuncCtx) declareSpecFun(sf *SpecFun, env *SpecEnv) {
 	fc.pendingAxioms = true
 }
 
-// emitAxioms adds every axiom all of whose spec functions are in use.
+// emitAxioms adds every axiom whose owner is in use.  The owner of an axiom is the first spec function
+// it mentions (left to right): axioms are written "f(...) == ..." / "forall .. :: f(...) ...", so an
+// axiom defines its owner; the other functions it mentions are declared on demand (to a fixpoint).
 func (fc *FuncCtx) emitAxioms() {
 	for fc.pendingAxioms {
 		fc.pendingAxioms = false
@@ -883,17 +885,8 @@ func (fc *FuncCtx) emitAxioms() {
 			if fc.declSet["axiom:"+ax.Name] {
 				continue
 			}
-			used := specFunsIn(ax.Expr, fc.E.CS)
-			all := true
-			any := false
-			for _, u := range used {
-				if fc.usedSpec[u] {
-					any = true
-				} else {
-					all = false
-				}
-			}
-			if !any || !all {
+			owner := firstSpecFun(ax.Expr, fc.E.CS)
+			if owner == "" || !fc.usedSpec[owner] {
 				continue
 			}
 			fc.declSet["axiom:"+ax.Name] = true
@@ -903,6 +896,46 @@ func (fc *FuncCtx) emitAxioms() {
 			fc.Assumed["spec axiom "+ax.Name+": "+ax.Src] = true
 		}
 	}
+}
+
+func firstSpecFun(e SExpr, cs *ContractSet) string {
+	res := ""
+	var walk func(e SExpr)
+	walk = func(e SExpr) {
+		if res != "" {
+			return
+		}
+		switch x := e.(type) {
+		case SIdent:
+			if sf, ok := cs.SpecFuns[x.Name]; ok && len(sf.Params) == 0 {
+				res = x.Name
+			}
+		case SBin:
+			walk(x.L)
+			walk(x.R)
+		case SUn:
+			walk(x.X)
+		case SCall:
+			if _, ok := cs.SpecFuns[x.Fn]; ok {
+				res = x.Fn
+				return
+			}
+			for _, a := range x.Args {
+				walk(a)
+			}
+		case SIndex:
+			walk(x.X)
+			walk(x.I)
+		case SSliceE:
+			walk(x.X)
+		case SField:
+			walk(x.X)
+		case SQuant:
+			walk(x.Body)
+		}
+	}
+	walk(e)
+	return res
 }
 
 func specFunsIn(e SExpr, cs *ContractSet) []string {
